@@ -29,6 +29,11 @@ def defaultOptions : Options := {}
 /-- `ExtractOptions.clone` (deep copy: a list is a value) -/
 def Options.clone (o : Options) : Options := { o with pages := o.pages }
 
+/-- `format.Format` -/
+inductive Fmt where
+  | pdf | docx | odt | xlsx | pptx | html | epub | unknown
+  deriving DecidableEq, Repr
+
 /-- the fields of `tabula.Extractor` that C10 talks about -/
 structure Ext where
   opts : Options := {}
@@ -37,6 +42,7 @@ structure Ext where
   reader : Option Nat := none    -- `e.reader` (index into `Store.readers`)
   owns : Bool := false           -- `e.ownsReader`
   opened : Bool := false         -- `e.readerOpened`
+  format : Fmt := .pdf           -- `e.format` (`format.Detect(filename)`; `format.PDF` for `FromReader`)
   deriving DecidableEq, Repr
 
 /-- `(*Extractor).clone` after the fix: a reader that `e` opened from its file
@@ -95,6 +101,27 @@ structure World where
   pageCount : Option Nat   -- reader.PageCount() on an open reader
   deriving DecidableEq, Repr
 
+/-- what the code outside C10 says about the file: `os.Open`, `format.DetectFromReader`
+(C20's subject) and the parser of the extension's format -/
+structure FileFacts where
+  present : Bool            -- `os.Open(filename)` succeeds
+  detected : Option Fmt     -- `format.DetectFromReader`; `none` = it returned an error
+  parseOk : Bool            -- `reader.Open` / `docx.Open` / … of the extension's format succeeds
+  deriving DecidableEq, Repr
+
+/-- `(*Extractor).validateFormat`: the file opens, detection does not fail, and the detected
+format is unknown or the one the extension promised -/
+def validateFormat (f : FileFacts) (fmt : Fmt) : Bool :=
+  f.present && (match f.detected with
+    | none => false
+    | some .unknown => true
+    | some d => d == fmt)
+
+/-- the part of `ensureReader` after the `readerOpened` / `filename` tests: `validateFormat`,
+then the `switch e.format` whose `default` is "unsupported file format" -/
+def openOkOf (f : FileFacts) (fmt : Fmt) : Bool :=
+  validateFormat f fmt && fmt != .unknown && f.parseOk
+
 structure Store where
   readers : List Bool := []   -- reader id ↦ its file is open
   exts : List Ext := []
@@ -130,11 +157,35 @@ def readerLive (s : Store) (e : Ext) : Bool :=
 
 inductive Term where
   | text | fragments | document | chunks
+  | lines | paragraphs | readingOrder | analyze | elements | headings | lists | blocks
+  | toMarkdown | chunksWithConfig
   deriving DecidableEq, Repr
 
 inductive NonTerm where
-  | pageCount | isMultiColumn
+  | pageCount | isMultiColumn | isCharacterLevel
   deriving DecidableEq, Repr
+
+/-- the operations that open their reader with `ensurePDFReader` -/
+def Term.pdfOnly : Term → Bool
+  | .fragments | .lines | .paragraphs | .readingOrder | .analyze | .elements
+  | .headings | .lists | .blocks => true
+  | _ => false
+
+def NonTerm.pdfOnly : NonTerm → Bool
+  | .pageCount => false
+  | _ => true
+
+/-- the operations with `if len(pageIndices) == 0 { "no pages to process" }`: `Document` (and
+through it `Chunks`, `ChunksWithConfig`, the PDF branch of `ToMarkdown`), `ReadingOrder`,
+`Analyze` (and through it `Elements`) -/
+def Term.needsPages : Term → Bool
+  | .document | .chunks | .chunksWithConfig | .toMarkdown
+  | .readingOrder | .analyze | .elements => true
+  | _ => false
+
+/-- does the operation start with `if e.err != nil { return }`?  `ToMarkdownWithOptions`
+dispatches on the format first and reaches that test only through `Chunks` for a PDF -/
+def Term.checksErr (k : Term) (f : Fmt) : Bool := !(k == .toMarkdown && f != .pdf)
 
 /-- what an operation returns, reduced to what is compared -/
 inductive Res where
@@ -143,6 +194,7 @@ inductive Res where
   | count (n : Nat)        -- PageCount
   | flag                   -- IsMultiColumn returned a value
   | pages (l : List Nat)   -- a terminal operation succeeded on these page indices
+  | whole                  -- a terminal operation succeeded on a non-PDF document (no selection there)
   | err
   | bad                    -- no such extractor (malformed op)
   deriving DecidableEq, Repr
@@ -155,9 +207,16 @@ def termBody (w : World) (k : Term) (o : Options) : Res :=
     match resolvePages o.pages n with
     | .error _ => .err
     | .ok idx =>
-      match k with
-      | .text | .fragments => .pages idx
-      | .document | .chunks => if idx.isEmpty then .err else .pages idx
+      if k.needsPages && idx.isEmpty then .err else .pages idx
+
+/-- the same for any format: the DOCX / ODT / XLSX / PPTX / HTML / EPUB branches of `Text`,
+`Document` and `ToMarkdownWithOptions` hand the whole document to the format's reader and never
+look at `options.pages` -/
+def termBodyF (w : World) (k : Term) (e : Ext) : Res :=
+  if e.format = .pdf then termBody w k e.opts
+  else match w.pageCount with
+    | none => .err
+    | some _ => .whole
 
 /-- body of `PageCount` / `IsMultiColumn` (reads page 1) -/
 def nonTermBody (w : World) (k : NonTerm) : Res :=
@@ -166,26 +225,44 @@ def nonTermBody (w : World) (k : NonTerm) : Res :=
   | some n =>
     match k with
     | .pageCount => .count n
-    | .isMultiColumn => if n = 0 then .err else .flag
+    | .isMultiColumn | .isCharacterLevel => if n = 0 then .err else .flag
 
-/-- `Text` / `Fragments` / `Document` / `Chunks`:
-`if e.err != nil {return}; if err := e.ensureReader(); err != nil {return}; defer e.Close(); …` -/
+/-- `ensurePDFReader` on an extractor of another format (after the fix): `ensureReader` runs,
+the format error follows, and for a file-based extractor the deferred `Close` releases
+whatever is open; a failing `ensureReader` returns first, the deferred `Close` still runs -/
+def mismatchStore (w : World) (s : Store) (i : Nat) (e : Ext) : Store :=
+  match ensureReader w s i e with
+  | .error _ => if e.hasFile then closeExt s i e else s
+  | .ok (s1, e1) => if e.hasFile then closeExt s1 i e1 else s1
+
+/-- the same path before the fix: the reader `ensureReader` opened stays open -/
+def mismatchStoreOld (w : World) (s : Store) (i : Nat) (e : Ext) : Store :=
+  match ensureReader w s i e with
+  | .error _ => s
+  | .ok (s1, _) => s1
+
+/-- every terminal operation (`Text`, `Fragments`, `Document`, `Chunks`, `ChunksWithConfig`,
+`ToMarkdown`, `Lines`, `Paragraphs`, `ReadingOrder`, `Analyze`, `Elements`, `Headings`, `Lists`,
+`Blocks`):
+`if e.err != nil {return}; if err := e.ensure[PDF]Reader(); err != nil {return}; defer e.Close(); …` -/
 def terminal (w : World) (k : Term) (s : Store) (i : Nat) : Store × Res :=
   match s.exts[i]? with
   | none => (s, .bad)
   | some e =>
-    if e.err then (s, .err)
+    if k.checksErr e.format && e.err then (s, .err)
+    else if k.pdfOnly && e.format != .pdf then (mismatchStore w s i e, .err)
     else match ensureReader w s i e with
       | .error _ => (s, .err)
       | .ok (s1, e1) =>
-        (closeExt s1 i e1, if readerLive s1 e1 then termBody w k e1.opts else .err)
+        (closeExt s1 i e1, if readerLive s1 e1 then termBodyF w k e1 else .err)
 
-/-- `PageCount` / `IsMultiColumn`: same frame without the deferred Close -/
+/-- `PageCount` / `IsMultiColumn` / `IsCharacterLevel`: same frame without the deferred Close -/
 def nonTerminal (w : World) (k : NonTerm) (s : Store) (i : Nat) : Store × Res :=
   match s.exts[i]? with
   | none => (s, .bad)
   | some e =>
     if e.err then (s, .err)
+    else if k.pdfOnly && e.format != .pdf then (mismatchStore w s i e, .err)
     else match ensureReader w s i e with
       | .error _ => (s, .err)
       | .ok (s1, e1) => (s1, if readerLive s1 e1 then nonTermBody w k else .err)
@@ -238,6 +315,14 @@ def exec (w : World) : Store → List Op → Store
 /-- `tabula.Open(filename)` -/
 def openBase : Store := { readers := [], exts := [{}] }
 
+/-- `tabula.Open(filename)` for a file name whose extension says `f` -/
+def openBaseF (f : Fmt) : Store := { readers := [], exts := [{ format := f }] }
+
+/-- the descriptors behind the open readers of a family of extractors on one file:
+`htmldoc.Open` reads the file and closes it before it returns, every other reader keeps
+its file until `Close` -/
+def fdHeld (f : Fmt) (s : Store) : Nat := if f = .html then 0 else s.fdCount
+
 /-- `tabula.FromReader(r)` with `r` opened by the caller -/
 def readerBase : Store :=
   { readers := [true], exts := [{ hasFile := false, reader := some 0, owns := false, opened := true }] }
@@ -250,11 +335,115 @@ def stepOld (w : World) (s : Store) : Op → Store × Res
     | some e => ({ s with exts := s.exts ++ [applyCallOld c e.cloneOld] }, .none)
   | op => step w s op
 
+/-- a PDF-only terminal operation before the `ensurePDFReader` fix -/
+def terminalLeaky (w : World) (k : Term) (s : Store) (i : Nat) : Store × Res :=
+  match s.exts[i]? with
+  | none => (s, .bad)
+  | some e =>
+    if k.pdfOnly && e.format != .pdf && !e.err then (mismatchStoreOld w s i e, .err)
+    else terminal w k s i
+
 def runOld (w : World) : Store → List Op → Store × List (Res × Nat)
   | s, [] => (s, [])
   | s, op :: ops =>
     let (s1, r) := stepOld w s op
     let (s2, rs) := runOld w s1 ops
     (s2, (r, s1.fdCount) :: rs)
+
+/-! ## histories: chains of calls, and answers as functions of the configuration -/
+
+/-- `Open(f).c₁.c₂…` / `FromReader(r).c₁.c₂…` as one extractor value -/
+def chainFrom (e0 : Ext) (cs : List BCall) : Ext := cs.foldl Ext.derive e0
+
+/-- the operations `x₁ := x₀.c₁; x₂ := x₁.c₂; …` that build a chain from extractor `j`,
+each on the extractor the previous one returned -/
+def freshChainFrom (j : Nat) : List BCall → List Op
+  | [] => []
+  | c :: cs => .derive j c :: freshChainFrom (j + 1) cs
+
+/-- the chain of configuration calls behind every extractor of a history
+(`L` = the chains of the extractors that exist already) -/
+def lineage : List (List BCall) → List Op → List (List BCall)
+  | L, [] => L
+  | L, .derive i c :: ops =>
+    lineage (match L[i]? with
+      | some cs => L ++ [cs ++ [c]]
+      | none => L) ops
+  | L, _ :: ops => lineage L ops
+
+/-- the page numbers a chain of calls has accumulated: every `Pages` argument and every
+non-inverted `PageRange`, in call order -/
+def selOf : List BCall → List Int
+  | [] => []
+  | .pages ps :: cs => ps ++ selOf cs
+  | .pageRange s t :: cs => (if s > t then [] else rangeList s t) ++ selOf cs
+  | _ :: cs => selOf cs
+
+/-- some `PageRange` of the chain was inverted (the chain is an error value) -/
+def badRange : List BCall → Bool
+  | [] => false
+  | .pageRange s t :: cs => decide (s > t) || badRange cs
+  | _ :: cs => badRange cs
+
+/-- the answer of a terminal operation on an extractor with the configuration of `e`
+(options, builder error, format, file name present), in any state that the family of
+extractors grown from `Open(f)` or `FromReader(r)` can reach: no reference to the store -/
+def termStatic (w : World) (k : Term) (e : Ext) : Res :=
+  if k.checksErr e.format && e.err then .err
+  else if k.pdfOnly && e.format != .pdf then .err
+  else if !e.hasFile || w.openOk then termBodyF w k e
+  else .err
+
+def nonTermStatic (w : World) (k : NonTerm) (e : Ext) : Res :=
+  if e.err then .err
+  else if k.pdfOnly && e.format != .pdf then .err
+  else if !e.hasFile || w.openOk then nonTermBody w k
+  else .err
+
+/-- the answer to `op` predicted from the receiver's chain of calls alone -/
+def staticAnswer (w : World) (e0 : Ext) (L : List (List BCall)) : Op → Res
+  | .derive i _ => if (L[i]?).isSome then .none else .bad
+  | .close i => if (L[i]?).isSome then .closed else .bad
+  | .term i k => match L[i]? with
+    | some cs => termStatic w k (chainFrom e0 cs)
+    | none => .bad
+  | .nonTerm i k => match L[i]? with
+    | some cs => nonTermStatic w k (chainFrom e0 cs)
+    | none => .bad
+
+/-- the answers to a whole history, each predicted from the chain of calls that built its
+receiver (the lineage is extended as the history goes) -/
+def staticRun (w : World) (e0 : Ext) : List (List BCall) → List Op → List Res
+  | _, [] => []
+  | L, op :: ops => staticAnswer w e0 L op :: staticRun w e0 (lineage L [op]) ops
+
+/-- `Close` on each of the listed extractors -/
+def closeAll (idx : List Nat) : List Op := idx.map Op.close
+
+/-! ## whole calls: `Open(f).c₁…cₙ.Text()` and friends -/
+
+/-- the page loop of a terminal operation runs on the pages its frame resolved, and only if
+the frame got that far -/
+def viaFrame {α : Type} (loop : List Nat → Except E α) : Res → Except E α
+  | .pages idx => loop idx
+  | _ => .error .builder
+
+/-- `x.Text()` for the extractor `x = base.c₁…cₙ` (in any reachable state, `termStatic`):
+`pg k` is the text of page index `k` under the options of the chain -/
+def textCall (pg : Nat → Except E Str) (w : World) (e0 : Ext) (cs : List BCall) : Except E Str :=
+  viaFrame (textOf pg) (termStatic w .text (chainFrom e0 cs))
+
+/-- `x.Fragments()` -/
+def fragmentsCall {F : Type} (pg : Nat → Except E (List F)) (w : World) (e0 : Ext) (cs : List BCall) :
+    Except E (List F) :=
+  viaFrame (fragmentsOf pg) (termStatic w .fragments (chainFrom e0 cs))
+
+/-- `x.Document()` (page numbers and sources) -/
+def documentCall (w : World) (e0 : Ext) (cs : List BCall) : Except E (List MPage) :=
+  viaFrame documentOf (termStatic w .document (chainFrom e0 cs))
+
+/-- the page indices any terminal operation `k` of `x` works on -/
+def pagesCall (k : Term) (w : World) (e0 : Ext) (cs : List BCall) : Except E (List Nat) :=
+  viaFrame (fun idx => .ok idx) (termStatic w k (chainFrom e0 cs))
 
 end Tabula.Builder
